@@ -509,3 +509,27 @@ func (c *Ctx) NoUseAfter(fn *ssa.Function, v ssa.Value, writeSpec, why string) {
 		}
 	}
 }
+
+// FieldsStored lists the fields of struct type tname stored in fn (by name).
+func FieldsStored(fn *ssa.Function, tname string) map[string]ssa.Instruction {
+	out := map[string]ssa.Instruction{}
+	for _, b := range fn.Blocks {
+		for _, ins := range b.Instrs {
+			s, ok := ins.(*ssa.Store)
+			if !ok {
+				continue
+			}
+			fa, ok := s.Addr.(*ssa.FieldAddr)
+			if !ok || namedOf(fa.X.Type()) != tname {
+				continue
+			}
+			out[fieldName(fa.X.Type(), fa.Field)] = s
+		}
+	}
+	return out
+}
+
+// FieldStoreAny (K11): every store to field tf in fn writes a value matching glob.
+func (c *Ctx) FieldStoreAny(fn *ssa.Function, tf, glob, why string) {
+	c.StoreIs(fn, tf, glob, 1, why)
+}
